@@ -82,8 +82,38 @@ def dump(v, objs, dyn, declared):
     return "%s(%s)" % (cls.__name__, ",".join(parts))
 
 
+PASSES = [0]
+
+
+def install_pass_counter():
+    """count the iterations of `while has_change[0]` in _determine_rule_types: each iteration
+    iterates the meta-model exactly once (`for cls in metamodel`)"""
+    import textx.lang as tl
+    import textx.metamodel as tmm
+    orig_det = tl.TextXVisitor._determine_rule_types
+    orig_iter = tmm.TextXMetaModel.__iter__
+    active = [False]
+
+    def counting_iter(self):
+        if active[0]:
+            PASSES[0] += 1
+        return orig_iter(self)
+
+    def det(self, metamodel):
+        PASSES[0] = 0
+        active[0] = True
+        try:
+            return orig_det(self, metamodel)
+        finally:
+            active[0] = False
+
+    tmm.TextXMetaModel.__iter__ = counting_iter
+    tl.TextXVisitor._determine_rule_types = det
+
+
 def run_case(case):
-    out = {"error": None, "kinds": {}, "inh": {}, "isinst": {}, "runs": []}
+    out = {"error": None, "kinds": {}, "inh": {}, "isinst": {}, "runs": [], "passes": None}
+    PASSES[0] = -1
     try:
         # memoization only bounds the parse time of ambiguous generated grammars (packrat)
         mm = metamodel_from_str(case["grammar"], memoization=True)
@@ -94,6 +124,7 @@ def run_case(case):
         out["error"] = type(ex).__name__ + ": " + str(ex)[:200]
         return out
     rules = case["rules"]
+    out["passes"] = PASSES[0]
     for n in rules:
         cls = mm[n]
         out["kinds"][n] = cls._tx_type
@@ -145,6 +176,7 @@ def on_alarm(signum, frame):
 def main():
     payload = json.load(sys.stdin)
     signal.signal(signal.SIGALRM, on_alarm)
+    install_pass_counter()
     res = []
     for c in payload["cases"]:
         signal.alarm(int(payload.get("case_timeout", 60)))
